@@ -1,6 +1,7 @@
 import EosModel.Num
 import EosModel.Keyed
-/-! Line protocol (one `KeyedStorage` per run): `new` | `as k v,v,..` | `rs k v,v,..` | `ae k v` | `re k v` | `dk k`
+/-! Line protocol (one `KeyedStorage` per run): `new` | `as k v,v,..` | `rs k v,v,..` | `ae k v` | `re k v` | `dk k`;
+    projection register pair: `pnew` | `pa p t,t` | `pu p t,t` -> `<dump projector_tgts> | <dump tgt_projectors>`
     (`-` = empty data) -> canonical dump `k:v,v;k:v` (keys and members ascending, `-` for an empty bucket,
     `empty` for the empty dict); anything else -> `bad-op`. -/
 open Eos Eos.Keyed
@@ -19,18 +20,26 @@ def dump (s : Store) : String :=
 def parseData? (t : String) : Option (List Nat) :=
   if t = "-" then some [] else (t.splitOn ",").mapM String.toNat?
 
-def stepKeyed (s : Store) (line : String) : Store × List String :=
-  let r : Option Store :=
+def stepKeyed (st : Store × ProjReg) (line : String) : (Store × ProjReg) × List String :=
+  let (s, r) := st
+  let res : Option ((Store × ProjReg) × String) :=
     match line.splitOn " " with
-    | ["new"] => some []
-    | ["as", k, d] => do let k ← k.toNat?; let d ← parseData? d; pure (addSet s k d)
-    | ["rs", k, d] => do let k ← k.toNat?; let d ← parseData? d; pure (rmSet s k d)
-    | ["ae", k, v] => do let k ← k.toNat?; let v ← v.toNat?; pure (addEntry s k v)
-    | ["re", k, v] => do let k ← k.toNat?; let v ← v.toNat?; pure (rmEntry s k v)
-    | ["dk", k] => do let k ← k.toNat?; pure (delKey s k)
+    | ["new"] => some (([], r), dump [])
+    | ["as", k, d] => do let k ← k.toNat?; let d ← parseData? d; let s' := addSet s k d; pure ((s', r), dump s')
+    | ["rs", k, d] => do let k ← k.toNat?; let d ← parseData? d; let s' := rmSet s k d; pure ((s', r), dump s')
+    | ["ae", k, v] => do let k ← k.toNat?; let v ← v.toNat?; let s' := addEntry s k v; pure ((s', r), dump s')
+    | ["re", k, v] => do let k ← k.toNat?; let v ← v.toNat?; let s' := rmEntry s k v; pure ((s', r), dump s')
+    | ["dk", k] => do let k ← k.toNat?; let s' := delKey s k; pure ((s', r), dump s')
+    | ["pnew"] => some ((s, {}), "empty | empty")
+    | ["pa", p, d] => do
+        let p ← p.toNat?; let d ← parseData? d; let r' := r.apply p d
+        pure ((s, r'), dump r'.projTgts ++ " | " ++ dump r'.tgtProjs)
+    | ["pu", p, d] => do
+        let p ← p.toNat?; let d ← parseData? d; let r' := r.unapply p d
+        pure ((s, r'), dump r'.projTgts ++ " | " ++ dump r'.tgtProjs)
     | _ => none
-  match r with
-  | some s' => (s', [dump s'])
-  | none => (s, ["bad-op"])
+  match res with
+  | some (st', o) => (st', [o])
+  | none => (st, ["bad-op"])
 
-def main : IO Unit := do lineLoop (← IO.getStdin) ([] : Store) stepKeyed
+def main : IO Unit := do lineLoop (← IO.getStdin) (([], {}) : Store × ProjReg) stepKeyed
